@@ -235,6 +235,11 @@ def fam_prim(c):
         ("P_transparent", "transparent", [F("a", "u32")]),
         ("P_usize_C", "C", [F("a", "usize"), F("b", "isize")]),
         ("P_tuplefield_C", "C", [F("a", "(u32, u32)"), F("b", "u64")]),
+        ("P_tup1_C", "C", [F("a", "(u32,)")]),
+        ("P_tup3_tailpad_C", "C", [F("a", "(u32, u16, u8)")]),
+        ("P_tup3_dense_C", "C", [F("a", "(u16, u16, u16)")]),
+        ("P_tup3_reordered_C", "C", [F("a", "(u8, u32, u8)")]),
+        ("P_tup2_pad_C", "C", [F("a", "(u8, u32)")]),
         ("P_arrayvec_C", "C", [F("a", "ArrayVec<u32, 4>")]),
         ("P_ignore_C", "C", [F("a", "u32"), F("skip", "u32", ignore=True), F("b", "u32")]),
         ("P_mixed_regions_C", "C", [F("a", "u32"), F("b", "u32"), F("s", "String"), F("c", "u16"), F("d", "u16")]),
